@@ -112,6 +112,9 @@ func getRawQuoteViaDevice(d Device, reportData [64]byte) ([]uint8, error) {
 
 		return nil, fmt.Errorf("unexpected error: %v", tdxHdr.Status)
 	}
+	if tdxHdr.OutLen == 0 || tdxHdr.OutLen > labi.ReqBufSize {
+		return nil, fmt.Errorf("invalid Quote size: %v. It must be > 0 and <= : %v", tdxHdr.OutLen, labi.ReqBufSize)
+	}
 
 	return tdxHdr.Data[:tdxHdr.OutLen], nil
 }
